@@ -94,7 +94,7 @@ func TestC20Health(t *testing.T) {
 		r.Inconcl("pristine fixture is not healthy: %d %s", code, truncateStr(body, 400))
 		return
 	}
-	plain, mirrored := f.WitLogs[0], f.WitLogs[1]
+	plain, mirrored, pow2 := f.WitLogs[0], f.WitLogs[1], f.WitLogs[2]
 	hashOf := func(l *WitLog) string { return fmt.Sprintf("%x", refSHA([]byte(l.Origin))) }
 	foreignML := detMLDSA(rng)
 	apply := func(b c20Break) (label string, nonStaging bool, readOnlyOK bool, ok bool) {
@@ -164,13 +164,17 @@ func TestC20Health(t *testing.T) {
 			return l.Short, !l.Staging, readOnlyOK, true
 		case "witness", "mirror":
 			l := plain
-			if name == "mirrored" {
+			run := f.WitRun
+			switch name {
+			case "mirrored":
 				l = mirrored
+			case "pow2":
+				l, run = pow2, f.WitRun2
 			}
 			h := hashOf(l)
 			root := f.WitDir
 			if kind == "mirror" {
-				if l != mirrored {
+				if l == plain {
 					return "", false, false, false
 				}
 				root = filepath.Join(f.WitDir, "mirror")
@@ -206,12 +210,16 @@ func TestC20Health(t *testing.T) {
 				if kind != "mirror" {
 					return "", false, false, false
 				}
-				_, msize := f.WitRun.state()
-				w := int(msize % 256)
-				tp := refTlogTilePath(TileCoord{0, msize / 256, w})
-				if w == 0 {
-					tp = refTlogTilePath(TileCoord{0, msize/256 - 1, 256})
+				_, msize := run.state()
+				// the highest-level right-edge tile: it holds the top hash of the
+				// right edge, so every verifying read of the edge needs it
+				var top TileCoord
+				for _, tc := range refLayout(msize, false) {
+					if tc.L >= top.L && tc.L >= 0 {
+						top = tc
+					}
 				}
+				tp := refTlogTilePath(top)
 				p := filepath.Join(root, h, filepath.FromSlash(tp))
 				tb, err := os.ReadFile(p)
 				if err != nil {
@@ -229,7 +237,7 @@ func TestC20Health(t *testing.T) {
 					return "", false, false, false
 				}
 				// roll the pending (witness) checkpoint back to an older cosigned one
-				if len(l.Commits) < 2 {
+				if len(l.Commits) < 2 || l == pow2 {
 					return "", false, false, false
 				}
 				st.put(filepath.Join(f.WitDir, h, "checkpoint"), l.Commits[0].Raw)
@@ -279,7 +287,7 @@ func TestC20Health(t *testing.T) {
 		singles = append(singles, c20Break{"witness:plain", c}, c20Break{"witness:mirrored", c})
 	}
 	for _, c := range []string{"checkpoint-missing", "checkpoint-truncated", "checkpoint-foreign-key", "edge-tile-missing", "edge-tile-flipped", "mirror-ahead-of-pending", "pending-unverifiable"} {
-		singles = append(singles, c20Break{"mirror:mirrored", c})
+		singles = append(singles, c20Break{"mirror:mirrored", c}, c20Break{"mirror:pow2", c})
 	}
 	for _, c := range []string{"missing", "no-keys", "foreign-keys", "unparsable"} {
 		singles = append(singles, c20Break{"witness-meta", c}, c20Break{"mirror-meta", c})
